@@ -42,6 +42,9 @@ pub const MIXER_KEYS: [u32; 4] = [10, 11, 12, 0xdead_beef];
 pub const KEY_PROBE_R1: u32 = 0x9001;
 pub const KEY_PROBE_SLOT: u32 = 0x9002;
 pub const KEY_PROBE_STACK: u32 = 0x9003;
+/// a helper id no history ever registers
+pub const KEY_NEVER: u32 = 0x7777;
+pub const LEAK_SLOTS: [i16; 4] = [-8, -16, -264, -512];
 
 #[derive(Clone, Copy, PartialEq, Eq, Debug, Hash)]
 pub enum Class {
@@ -75,6 +78,11 @@ pub enum Class {
     StorePkt,
     /// fixed-metadata slots without a helper: r0 = *(r1+eoff) - *(r1+doff)  (address-free)
     SlotPlain,
+    /// stores to its stack, then fails (calls a helper id that is never registered): interpreter only
+    StackLeakWrite,
+    /// returns stack slots it never wrote (0 on a fresh interpreter stack). Contains an unreachable
+    /// call to a never-registered helper, so neither compiler accepts it: interpreter only.
+    StackLeakRead,
 }
 
 impl Class {
@@ -97,6 +105,8 @@ impl Class {
             Class::StackPlain => "StackPlain",
             Class::StorePkt => "StorePkt",
             Class::SlotPlain => "SlotPlain",
+            Class::StackLeakWrite => "StackLeakWrite",
+            Class::StackLeakRead => "StackLeakRead",
         }
     }
     pub fn parse(s: &str) -> Option<Class> {
@@ -118,6 +128,8 @@ impl Class {
             Class::StackPlain,
             Class::StorePkt,
             Class::SlotPlain,
+            Class::StackLeakWrite,
+            Class::StackLeakRead,
         ] {
             if c.name() == s {
                 return Some(c);
@@ -484,6 +496,29 @@ pub fn gen_probe_slot(tag: u8, doff: usize, eoff: usize, len_variant: bool) -> P
     let mut p = mk(b.v, tag, if len_variant { Class::ProbeSlotLen } else { Class::ProbeSlotData });
     p.offsets = Some((doff, eoff));
     p
+}
+
+pub fn gen_stack_leak_write(rng: &mut Rng, tag: u8) -> Prog {
+    let mut b = B::new(tag);
+    for off in LEAK_SLOTS {
+        b.i(STDW_IMM, 10, 0, off, (rng.next_u64() as i32) | 0x0101);
+    }
+    b.i(CALL, 0, 0, 0, KEY_NEVER as i32); // the interpreter reports "unknown helper"
+    b.trailer(tag);
+    mk(b.v, tag, Class::StackLeakWrite)
+}
+
+pub fn gen_stack_leak_read(tag: u8) -> Prog {
+    let mut b = B::new(tag);
+    b.i(MOV64_IMM, 0, 0, 0, 0);
+    for off in LEAK_SLOTS {
+        b.i(LDXDW, 2, 10, off, 0);
+        b.i(0x4f, 0, 2, 0, 0); // or64 r0, r2
+    }
+    b.i(0x05, 0, 0, 1, 0); // ja +1: the call below is never executed ...
+    b.i(CALL, 0, 0, 0, KEY_NEVER as i32); // ... but makes both compilers refuse the program
+    b.trailer(tag);
+    mk(b.v, tag, Class::StackLeakRead)
 }
 
 pub fn gen_slot_plain(tag: u8, doff: usize, eoff: usize) -> Prog {
